@@ -547,13 +547,41 @@ pub fn blocks(args: &Args) {
     let (ma, mb) = (alpha::mapper(), beta::mapper());
     let max_tx = args.num("max-tx", if thorough { u64::MAX } else { 12 }) as usize;
     let (mut nb, mut nt, mut skipped) = (0usize, 0usize, Vec::new());
-    let mut do_tx = |out: &mut Ndjson, src: &str, tx: &MultiEraTx| {
+    let do_tx = |out: &mut Ndjson, src: &str, tx: &MultiEraTx| {
         let l = l_tx(tx);
         for ver in ["v1alpha", "v1beta"] {
             let r = catch(|| if ver == "v1alpha" { alpha::r_tx(&ma.map_tx(tx)) } else { beta::r_tx(&mb.map_tx(tx)) });
             match r {
                 Ok(r) => out.ev(json!({"ev": "tx", "ver": ver, "src": src, "l": l, "r": r})),
                 Err(p) => out.ev(json!({"ev": "panic", "ver": ver, "src": src, "op": "map_tx", "hash": l["hash"], "msg": p})),
+            }
+        }
+    };
+    // the same transaction with the validity flag cleared (Alonzo and later: [body, wits, bool, aux]):
+    // the declared outputs, inputs, fee ... must be mapped all the same
+    let flipped = |tx: &MultiEraTx| -> Option<(Era, Vec<u8>)> {
+        let era = tx.era();
+        if !matches!(era, Era::Alonzo | Era::Babbage | Era::Conway) {
+            return None;
+        }
+        let mut bytes = tx.encode();
+        let mut d = minicbor::Decoder::new(&bytes);
+        d.array().ok()?;
+        d.skip().ok()?;
+        d.skip().ok()?;
+        let pos = d.position();
+        if bytes.get(pos) != Some(&0xf5) {
+            return None;
+        }
+        bytes[pos] = 0xf4;
+        Some((era, bytes))
+    };
+    let mut do_both = |out: &mut Ndjson, src: &str, tx: &MultiEraTx| {
+        do_tx(out, src, tx);
+        if let Some((era, bytes)) = flipped(tx) {
+            match MultiEraTx::decode_for_era(era, &bytes) {
+                Ok(t2) if !t2.is_valid() => do_tx(out, &format!("{src}/is_valid=false"), &t2),
+                _ => die(&format!("{src}: transaction with cleared validity flag does not decode")),
             }
         }
     };
@@ -588,7 +616,7 @@ pub fn blocks(args: &Args) {
             }
             for i in idx {
                 nt += 1;
-                do_tx(&mut out, n, &txs[i]);
+                do_both(&mut out, n, &txs[i]);
             }
         } else {
             let Ok(tx) = MultiEraTx::decode(&cbor) else {
@@ -596,7 +624,7 @@ pub fn blocks(args: &Args) {
                 continue;
             };
             nt += 1;
-            do_tx(&mut out, n, &tx);
+            do_both(&mut out, n, &tx);
         }
     }
     println!("{}", json!({"blocks": nb, "txs": nt, "skipped": skipped, "events": out.finish()}));
